@@ -43,38 +43,38 @@ def classify(component, what, case):
     kind = case.get("kind", "")
     if kind == "sanitizer":
         if "lyb_union_print" in fr:
-            return "F50"                                   # LYB print of a union re-stores the shared member value
+            return "F72"                                   # LYB print of a union re-stores the shared member value
         if "ly_err_new_rec" in fr and ("lyht_resize" in fr or "_lyht_insert_with_resize_cb" in fr) and (fr & ERR_DEREF or "ly_err_get_rec" in fr):
             return "F8"                                    # record array replaced while another thread holds a pointer into it
         if "F8" in (case.get("prior") or []) and flags is not None and not (flags & 1) and \
                 re.search(r"in (ly_err_clean|ly_err_free|ly_err_first|ly_err_last|log_store)\b", case.get("summary", "")):
             return "F8"                                    # the stale record pointer is used again later in the same process
         if "lyd_new_path_check_find_lypath" in fr and re.search(r"^data race .*in (lyd_new_path_check_find_lypath|lysc_type_free)\b", case.get("summary", "")):
-            return "F51"                                   # non-atomic ++type->refcount on the shared compiled type
+            return "F73"                                   # non-atomic ++type->refcount on the shared compiled type
         if {"lysc_type_free", "ly_path_predicates_free", "lyd_new_path_"} <= fr and flags is not None and (flags & 32):
-            return "F51"                                   # … whose lost update lets lyd_new_path free the type under the other threads
-        if case.get("summary", "").startswith("SEGV") and flags is not None and (flags & 32) and "F51" in (case.get("prior") or []):
-            return "F51"                                   # … and the crash that follows in the same process
+            return "F73"                                   # … whose lost update lets lyd_new_path free the type under the other threads
+        if case.get("summary", "").startswith("SEGV") and flags is not None and (flags & 32) and "F73" in (case.get("prior") or []):
+            return "F73"                                   # … and the crash that follows in the same process
         if flags is not None and (flags & 16):
-            # F50 corrupts the shared value: what follows in the same process, and the printers' error exits when a
+            # F72 corrupts the shared value: what follows in the same process, and the printers' error exits when a
             # half-built value cannot be printed, are consequences — only in the regime with shared unions
-            if case.get("summary", "").startswith("SEGV") and ("F50" in (case.get("prior") or []) or
+            if case.get("summary", "").startswith("SEGV") and ("F72" in (case.get("prior") or []) or
                                                               fr & {"lyplg_type_print_union", "lyplg_type_compare_union", "lyplg_type_sort_union"}):
-                return "F50"                               # … incl. a reader that finds the member value zeroed (realtype NULL)
+                return "F72"                               # … incl. a reader that finds the member value zeroed (realtype NULL)
             if "leaked in" in case.get("summary", "") and fr & {"json_print_data", "xml_print_data", "lyb_print_data"}:
-                return "F50"
+                return "F72"
             if "runtime error" in case.get("summary", "") and (fr & {"lyplg_type_print_union", "union_store_type"} or
                                                                 re.search(r"union\.c:\d+:\d+: runtime error: member access within null pointer", case.get("summary", ""))):
-                return "F50"                               # the member value is read while another thread re-stores it (NULL realtype / items)
+                return "F72"                               # the member value is read while another thread re-stores it (NULL realtype / items)
         if fr & LAZY_SITES and case.get("summary", "").startswith("data race"):
             return "F9"                                    # lazy _canonical fill / its freshly published string
         return None
     if kind == "surplus" and flags is not None and not (flags & 2):
         return "F9"                                        # surplus dictionary reference on a tree that was not pre-printed
     if kind == "surplus" and flags is not None and (flags & 16):
-        return "F50"                                       # re-stored union member is filled lazily again
+        return "F72"                                       # re-stored union member is filled lazily again
     if kind == "digest" and flags is not None and (flags & 16):
-        return "F50"                                       # a reader saw the half-built member value (e.g. ip 0.0.0.0)
+        return "F72"                                       # a reader saw the half-built member value (e.g. ip 0.0.0.0)
     if kind == "model-stale":
         return "F8"
     if kind == "lazy-surplus":
@@ -398,8 +398,8 @@ def thread_configs(cx, config):
     cfgs.append((16, 24, 2, it * 3))       # F8: records created concurrently with readers
     cfgs.append((16, 16, 1, it * 2))       # F9: shared tree never printed before
     cfgs.append((8, 16, 5, it * 2))        # F9 on LYB-parsed values
-    cfgs.append((8, 16, 19, it * 2))       # F50: union-typed leaves in the shared tree, LYB print
-    cfgs.append((8, 1, 35, it * 2))        # F51: lyd_new_path(leaf-list, value) by several threads
+    cfgs.append((8, 16, 19, it * 2))       # F72: union-typed leaves in the shared tree, LYB print
+    cfgs.append((8, 1, 35, it * 2))        # F73: lyd_new_path(leaf-list, value) by several threads
     cfgs.append((16, 31, 0, it))           # everything at once
     if not q:
         for n in (2, 4, 8, 16):
@@ -423,7 +423,7 @@ def run_threads(cx, config, budget=None):
             break
         seed = rng.randrange(0, 5) if ci < 40 else rng.randrange(0, 1000)
         line = "%d conc run %d %d %d %d %d" % (400000 + ci, n, mode, flags, it, seed)
-        # F50 and F51 corrupt memory shared by all threads: in those regimes the run stops at the first report (what
+        # F72 and F73 corrupt memory shared by all threads: in those regimes the run stops at the first report (what
         # follows a corrupted heap is arbitrary); everywhere else every report of the run is collected
         reply, rc, err = run_one(exe, line, config, timeout=240, halt=bool(flags & 48))
         extra = {"flags": flags, "mode": mode, "n": n, "config": config}
